@@ -335,3 +335,4 @@ CHECKS["C12"]["text"] += (" Present optionals in the BOXED form of eight built-i
 CHECKS["C13"]["text"] += (" Boxed string elements / map values must print like plain ones.")
 CHECKS["C16"]["text"] += (" Unclosed towers (list, parenthesis, call, map, index; 3 .. 40 levels) followed by two values without a separator: a failing parse must not retry every enclosing level.")
 CHECKS["C16"]["text"] += (" Since the repair of `value` in grammar.pest the quick tier takes every 6th / 8th derivation of its two largest grammar layers (k <= 3 at module level + rotating host; k <= 4 expressions in a method); the thorough tier enumerates all of them.")
+CHECKS["C16"]["text"] += (" The type x use matrix now has 19 types: three fixed-shape lists (empty, pair, nested empty) declared const without an annotation.")
